@@ -230,7 +230,7 @@ def determined_network(draw, noise=1, dims=None, free=False, allow_cov=True, all
         P.append(p)
     ids = [p["id"] for p in P]
     known = ids[:nfix]
-    hz_recipes = ["polar", "intersection", "trilateration", "azdist", "coords", "vector", "traverse"]
+    hz_recipes = ["polar", "intersection", "trilateration", "azdist", "coords", "vector", "traverse", "polar3d"]
     z_recipes = ["dh", "trig", "vector", "coords"]
     if free:
         # observed coordinates carry an absolute datum: not part of a free network
@@ -246,6 +246,8 @@ def determined_network(draw, noise=1, dims=None, free=False, allow_cov=True, all
             if rec_xy == "trilateration" and len(known) < 3:
                 rec_xy = "polar"
             if rec_xy == "vector" and not has_z:
+                rec_xy = "polar"
+            if rec_xy == "polar3d" and (not has_z or len(known) < 2):
                 rec_xy = "polar"
             if rec_xy in ("polar", "traverse"):
                 s = known[-1] if rec_xy == "traverse" else draw(st.sampled_from(known))
@@ -276,8 +278,19 @@ def determined_network(draw, noise=1, dims=None, free=False, allow_cov=True, all
                 B.add_coords(pid, "xyz" if has_z and draw(st.booleans()) else "xy")
             elif rec_xy == "vector":
                 B.add_vector(draw(st.sampled_from(known)), pid)
+            elif rec_xy == "polar3d":
+                # total station: direction + slope distance + zenith angle, no horizontal distance at all
+                s = draw(st.sampled_from(known))
+                refs = [k for k in known if k != s]
+                B.add(s, "direction", to=draw(st.sampled_from(refs)))
+                B.add(s, "direction", to=pid)
+                kw = {}
+                if draw(st.integers(0, 2)) == 0:
+                    kw = {"from_dh": draw(st.integers(1000, 1900)) / 1000.0, "to_dh": draw(st.integers(0, 2500)) / 1000.0}
+                B.add(s, "z-angle", to=pid, **kw)
+                B.add(s, "s-distance", to=pid, **kw)
         if has_z:
-            got_z = (rec_xy == "vector") or (rec_xy == "coords" and B.coords and B.coords[-1]["id"] == pid
+            got_z = (rec_xy in ("vector", "polar3d")) or (rec_xy == "coords" and B.coords and B.coords[-1]["id"] == pid
                                              and "z" in B.coords[-1]["dims"])
             if not got_z:
                 rec_z = draw(st.sampled_from(z_recipes if has_xy else [r for r in z_recipes if r in ("dh", "coords")]))
